@@ -137,6 +137,7 @@ type runtimeState struct {
 	bound     int
 	spent     int
 	useCache  bool
+	quiet     bool // setup / settle phase: default choices only, nothing recorded
 	keysSeen  int
 	resetters []func()
 }
@@ -272,7 +273,7 @@ func (r *runtimeState) reschedule(t *thread, exiting bool) {
 		}
 		pick := 0
 		if n > 1 {
-			if r.useCache && r.checkCache(t, exiting) {
+			if r.useCache && !r.quiet && r.checkCache(t, exiting) {
 				r.x.Pruned = true
 				r.finish()
 				if exiting {
@@ -357,6 +358,9 @@ func (r *runtimeState) describeBlocked() string {
 
 // choose records/replays a choice with n alternatives.
 func (r *runtimeState) choose(kind byte, n int, cost []uint8, sig uint32) int {
+	if r.quiet {
+		return 0
+	}
 	pick := 0
 	idx := len(r.x.Choices)
 	if idx < len(r.prefix) {
@@ -607,6 +611,7 @@ func RunOnce(body func(), o RunOptions) *Exec {
 	r.finished = false
 	r.doneCh = make(chan struct{})
 	r.aborting = false
+	r.quiet = false
 	r.bound = o.Bound
 	r.spent = 0
 	r.cache = o.Cache
@@ -667,4 +672,14 @@ func Visible() {
 		return
 	}
 	Point(OpOther, nil)
+}
+
+// Quiet switches exploration off (true) or on (false) for the calling execution: while quiet,
+// every choice takes its default and is not recorded. Harnesses run their setup (node start,
+// connects) and, where order cannot matter, their final drain quietly, so that the explored
+// choice points are exactly those of the concurrent phase.
+func Quiet(q bool) {
+	if Active() {
+		rt.quiet = q
+	}
 }
